@@ -43,8 +43,22 @@ def run_message(scn, b=None):
 
 # ---- files ----------------------------------------------------------------------------------
 
+_clean_cache = {}
+
+
 def clean_file(scn):
     """(image written by the real IpmWriter, list of raw records as found in it by the reference parser)"""
+    key = (id(scn["messages"]), scn.get("encoding"), id(scn.get("config")), len(scn["messages"]))
+    hit = _clean_cache.get(key)
+    if hit is not None and hit[0] is scn["messages"]:
+        return hit[1], hit[2]
+    image, recs = _clean_file(scn)
+    _clean_cache.clear()
+    _clean_cache[key] = (scn["messages"], image, recs)
+    return image, recs
+
+
+def _clean_file(scn):
     wscn = {"kind": "vbs_pipeline", "level": "ipm", "blocked": False, "storage": "sim", "api": "write",
             "encoding": scn.get("encoding"), "config": scn.get("config", "packaged"),
             "messages": scn["messages"], "knobs": scn.get("knobs", {})}
